@@ -334,14 +334,19 @@ mod e2e {
     }
 
     /// Poll gated tasks in PRNG order until none is runnable (or the budget ends).
+    /// tasks (ids) the scheduler does not poll for the moment: a node session that is "busy
+    /// elsewhere" while frames and supervision events pile up in its ports
+    static HELD_TASKS: Mutex<Vec<usize>> = Mutex::new(Vec::new());
+
     pub async fn schedule(ctl: &ractor::verif::Controller, rng: &mut Rng, budget: usize, st: &mut Stats) -> bool {
         for _ in 0..budget {
-            let runnable: Vec<_> = ctl.tasks().into_iter().filter(|t| t.runnable()).collect();
+            let held = HELD_TASKS.lock().unwrap().clone();
+            let runnable: Vec<_> = ctl.tasks().into_iter().filter(|t| t.runnable() && !held.contains(&t.id)).collect();
             if runnable.is_empty() {
                 if tcp_mode() {
                     // real sockets: rest = no gated task runnable AND the runtime idle AND nothing unread /
                     // unsent / in flight on any socket of the process (observable, not a pause)
-                    if tcpq::settle_with(|| ctl.tasks().iter().any(|t| t.runnable())).await {
+                    if tcpq::settle_with(|| ctl.tasks().iter().any(|t| t.runnable() && !held.contains(&t.id))).await {
                         return true;
                     }
                     continue;
@@ -350,7 +355,7 @@ mod e2e {
                 let mut woke = false;
                 for _ in 0..24 {
                     tokio::task::yield_now().await;
-                    if ctl.tasks().iter().any(|t| t.runnable()) {
+                    if ctl.tasks().iter().any(|t| t.runnable() && !held.contains(&t.id)) {
                         woke = true;
                         break;
                     }
@@ -395,6 +400,8 @@ mod e2e {
         /// fault switches of A's and B's own end of the link
         faults: [Arc<Fault>; 2],
         nid: [u64; 2],
+        /// the controlled task that runs the link's NodeSession actor on A / on B
+        sess_task: [Option<usize>; 2],
         /// proxies seen so far: (dir, probe) -> cell (kept to observe them after they left pg)
         proxies: HashMap<(usize, usize), ActorCell>,
     }
@@ -494,6 +501,7 @@ mod e2e {
                 kill,
                 faults: [Arc::default(), Arc::default()],
                 nid: [u64::MAX, u64::MAX],
+                sess_task: [None, None],
                 proxies: HashMap::new(),
             };
             // some probes exist before the connection (advertised by the initial scan), the
@@ -586,6 +594,32 @@ mod e2e {
                             w.nid[i] = s.node_id;
                         }
                     }
+                }
+            }
+            // which controlled task is the link's NodeSession on each node? At rest no task is
+            // runnable; a message to the session wakes exactly its task.
+            HELD_TASKS.lock().unwrap().clear();
+            if hold.is_none() && schedule(&w.ctl, &mut w.rng, 400_000, st).await {
+                for (i, node) in [w.a.clone(), w.b.clone()].into_iter().enumerate() {
+                    let r = drive(&w.ctl, &mut w.rng, st, async move { ractor::call_t!(node, NodeServerMessage::GetSessions, 60_000) }).await;
+                    let Some(Ok(m)) = r else { continue };
+                    let Some(s) = m.into_values().find(|s| s.peer_addr == "link") else { continue };
+                    if !schedule(&w.ctl, &mut w.rng, 400_000, st).await {
+                        continue;
+                    }
+                    let (tx, rx) = ractor::concurrency::oneshot::<bool>();
+                    if s.actor.cast(ractor_cluster::NodeSessionMessage::GetReadyState(tx.into())).is_err() {
+                        continue;
+                    }
+                    let woken: Vec<usize> = w.ctl.tasks().iter().filter(|t| t.runnable()).map(|t| t.id).collect();
+                    if let [id] = woken.as_slice() {
+                        w.sess_task[i] = Some(*id);
+                        st.bump("e_session_task_identified");
+                    } else {
+                        st.bump("e_session_task_ambiguous");
+                    }
+                    schedule(&w.ctl, &mut w.rng, 400_000, st).await;
+                    drop(rx);
                 }
             }
             let mut obs = format!("ready a={} b={}{}", w.nid[0] as i64, w.nid[1] as i64, if quiet && quiet2 { "" } else { " busy" });
@@ -879,6 +913,21 @@ mod e2e {
                     let n = self.faults[Self::dir(d)].reported.load(Ordering::SeqCst);
                     if n > 0 { "reported".into() } else { "unreported".into() }
                 }
+                ["holdsess", d] => {
+                    // node `d`'s session is not polled until `unholdsess`: what is sent to it piles up
+                    st.bump("e_holdsess");
+                    match self.sess_task[Self::dir(d)] {
+                        Some(id) => {
+                            HELD_TASKS.lock().unwrap().push(id);
+                            "ok".into()
+                        }
+                        None => "unknown".into(),
+                    }
+                }
+                ["unholdsess", _] => {
+                    HELD_TASKS.lock().unwrap().clear();
+                    "ok".into()
+                }
                 ["release"] => {
                     st.bump("e_release");
                     let _ = self.gate.send(true);
@@ -902,6 +951,7 @@ mod e2e {
         }
 
         async fn finish(mut self, st: &mut Stats) {
+            HELD_TASKS.lock().unwrap().clear();
             for (_, h) in self.callers.drain() {
                 h.abort();
             }
@@ -958,7 +1008,41 @@ mod e2e {
         world.finish(st).await;
     }
 
+    /// An original stops while a frame for it and its exit notice are BOTH waiting at the peer-facing
+    /// session (the session was busy). The actor loop's select is biased, so on this single-threaded
+    /// runtime the session takes the exit notice first and then rejects the frame; the other order
+    /// (frame already dequeued when the actor goes away) needs two threads and is driven handler by
+    /// handler in the `adv` ops. Whatever the order, the peer must be told, the reference must stop,
+    /// leave its groups, and refuse sends.
+    fn gen_race_case(rng: &mut Rng, c: u64) -> Vec<String> {
+        let n = 3;
+        let mut ops = vec![format!("e2e {c} {n}"), "settle".to_string()];
+        for t in 0..n {
+            let (d, x) = if rng.chance(1, 2) { ("a", "b") } else { ("b", "a") };
+            if rng.chance(1, 2) {
+                ops.push(format!("join {t} g1"));
+                ops.push("settle".into());
+            }
+            ops.push(format!("holdsess {x}"));
+            ops.push(format!("cast {d} {t} 0 0"));
+            ops.push("settle".into());
+            ops.push(format!("stop {t}"));
+            ops.push("settle".into());
+            ops.push(format!("unholdsess {x}"));
+            ops.push("settle".into());
+            ops.push(format!("status a {t}"));
+            ops.push(format!("status b {t}"));
+            ops.push(format!("cast {d} {t} 0 1"));
+            ops.push(format!("members p{t}"));
+            ops.push("members g1".into());
+        }
+        ops
+    }
+
     pub fn gen_case(rng: &mut Rng, c: u64) -> Vec<String> {
+        if rng.chance(1, 6) {
+            return gen_race_case(rng, c);
+        }
         let nprobes = rng.range(1, 3);
         // a third of the cases: one direction of the relay stands still right after the
         // authentication frames, and actors exit / join / leave / appear in that window
@@ -1214,6 +1298,11 @@ async fn settle() {
 struct PureWorld {
     probe: Option<ProxyProbe>,
     ports: Vec<u64>,
+    /// a real NodeSession + state driven handler by handler (allow-list / Spawn / Terminate announcements)
+    adv: Option<ractor_cluster::node::node_session::verif_advert::AdvertProbe>,
+    /// actors that stopped and whose Terminate lifecycle event the session has not handled yet
+    adv_pend: Vec<usize>,
+    adv_n: usize,
 }
 
 impl PureWorld {
@@ -1245,6 +1334,71 @@ impl PureWorld {
     async fn exec(&mut self, op: &str, st: &mut Stats) -> String {
         let w: Vec<&str> = op.split_whitespace().collect();
         match w.as_slice() {
+            ["adv", "new"] => {
+                if let Some(mut p) = self.adv.take() {
+                    p.shutdown();
+                }
+                self.adv = Some(ractor_cluster::node::node_session::verif_advert::AdvertProbe::new().await);
+                self.adv_pend.clear();
+                self.adv_n = 0;
+                st.bump("adv_cases");
+                "ok".into()
+            }
+            ["adv", rest @ ..] => {
+                let Some(p) = self.adv.as_mut() else { return "no-adv".into() };
+                match rest {
+                    ["spawn"] => {
+                        st.bump("adv_spawn");
+                        let i = p.spawn_actor().await;
+                        self.adv_n = i + 1;
+                        p.lifecycle_evt(i, true).await;
+                    }
+                    ["stop", i] => {
+                        let i: usize = i.parse().unwrap();
+                        if i < self.adv_n && !self.adv_pend.contains(&i) && p.pid(i).is_some_and(|pid| ractor::registry::where_is_pid(ractor::ActorId::Local(pid)).is_some()) {
+                            st.bump("adv_stop");
+                            p.stop_actor(i).await;
+                            self.adv_pend.push(i);
+                        }
+                    }
+                    ["evt", i] => {
+                        let i: usize = i.parse().unwrap();
+                        if let Some(k) = self.adv_pend.iter().position(|x| *x == i) {
+                            st.bump("adv_terminate_evt");
+                            self.adv_pend.remove(k);
+                            p.lifecycle_evt(i, false).await;
+                        }
+                    }
+                    ["frame", i, kind] => {
+                        let i: usize = i.parse().unwrap();
+                        st.bump("adv_frame");
+                        if self.adv_pend.contains(&i) {
+                            // the seeded window: the actor left the registry, its event is not handled yet
+                            st.bump("adv_frame_between_exit_and_event");
+                        }
+                        let pid = p.pid(i).unwrap_or(4_000_000_000 + i as u64);
+                        p.inbound(pid, *kind == "call");
+                    }
+                    ["rest"] => {}
+                    _ => return "bad-op".into(),
+                }
+                settle().await;
+                let wire: Vec<String> = {
+                    let pids: Vec<Option<u64>> = (0..self.adv_n).map(|i| p.pid(i)).collect();
+                    let idx = |pid: u64| pids.iter().position(|q| *q == Some(pid)).map(|i| i.to_string()).unwrap_or(format!("?{pid}"));
+                    p.take_wire().await.into_iter().map(|(sp, pid)| format!("{}{}", if sp { "S" } else { "T" }, idx(pid))).collect()
+                };
+                let pids: Vec<Option<u64>> = (0..self.adv_n).map(|i| p.pid(i)).collect();
+                let adv: Vec<String> = p
+                    .advertised()
+                    .into_iter()
+                    .filter_map(|pid| pids.iter().position(|q| *q == Some(pid)))
+                    .map(|i| i.to_string())
+                    .collect();
+                let recv: Vec<String> = (0..self.adv_n).map(|i| p.received(i).to_string()).collect();
+                let l = |v: Vec<String>| if v.is_empty() { "-".to_string() } else { v.join(",") };
+                format!("wire={} adv={} recv={}", l(wire), l(adv), l(recv))
+            }
             ["proxy"] => {
                 if let Some(p) = self.probe.take() {
                     p.shutdown();
@@ -1285,6 +1439,50 @@ impl PureWorld {
             _ => "bad-op".into(),
         }
     }
+}
+
+/// The allow-list and the Spawn / Terminate announcements of a session, with inbound frames for
+/// live, stopping, stopped and unknown actors at every point (in particular between an actor's
+/// exit from the pid registry and the session handling its Terminate event).
+fn gen_adv(rng: &mut Rng) -> Vec<String> {
+    let mut ops = vec!["adv new".to_string()];
+    let mut n = 0u64;
+    let mut alive: Vec<u64> = vec![];
+    let mut pend: Vec<u64> = vec![];
+    let frame = |rng: &mut Rng, i: u64| format!("adv frame {i} {}", if rng.chance(1, 3) { "call" } else { "cast" });
+    for _ in 0..rng.range(4, 30) {
+        match rng.below(10) {
+            0..=2 => {
+                ops.push("adv spawn".into());
+                alive.push(n);
+                n += 1;
+            }
+            3..=4 if !alive.is_empty() => {
+                let i = alive.remove(rng.below(alive.len() as u64) as usize);
+                ops.push(format!("adv stop {i}"));
+                pend.push(i);
+                // most of the time something for it is still in flight
+                if rng.chance(2, 3) {
+                    for _ in 0..rng.range(1, 2) {
+                        ops.push(frame(rng, i));
+                    }
+                }
+            }
+            5..=6 if !pend.is_empty() => {
+                let i = pend.remove(rng.below(pend.len() as u64) as usize);
+                ops.push(format!("adv evt {i}"));
+            }
+            _ => {
+                let i = rng.below(n + 2);
+                ops.push(frame(rng, i));
+            }
+        }
+    }
+    while let Some(i) = pend.pop() {
+        ops.push(format!("adv evt {i}"));
+    }
+    ops.push("adv rest".into());
+    ops
 }
 
 fn gen_pure(rng: &mut Rng) -> Vec<String> {
@@ -1339,7 +1537,7 @@ async fn replay_file(path: &str, log: &mut Log, st: &mut Stats, world: &mut Pure
     while i < lines.len() {
         if lines[i].starts_with("e2e ") {
             let mut j = i + 1;
-            while j < lines.len() && !lines[j].starts_with("e2e ") && lines[j] != "proxy" {
+            while j < lines.len() && !lines[j].starts_with("e2e ") && lines[j] != "proxy" && lines[j] != "adv new" {
                 j += 1;
             }
             e2e::run_case(&lines[i..j], log, st).await;
@@ -1362,7 +1560,7 @@ async fn main() {
     let mut rng = Rng::new(seed);
     let mut log = Log::create(std::path::Path::new(&out)).unwrap();
     let mut st = Stats::default();
-    let mut world = PureWorld { probe: None, ports: vec![] };
+    let mut world = PureWorld { probe: None, ports: vec![], adv: None, adv_pend: vec![], adv_n: 0 };
 
     let tcp = args.u64("tcp", 0) == 1;
     TCP.store(tcp, std::sync::atomic::Ordering::Relaxed);
@@ -1377,6 +1575,12 @@ async fn main() {
                 log.rec(&op, obs);
             }
         }
+        for _ in 0..cases / 4 {
+            for op in gen_adv(&mut rng) {
+                let obs = world.exec(&op, &mut st).await;
+                log.rec(&op, obs);
+            }
+        }
         for c in 0..e2e_cases {
             let ops = e2e::gen_case(&mut rng, c);
             e2e::run_case(&ops, &mut log, &mut st).await;
@@ -1387,6 +1591,9 @@ async fn main() {
     }
     if tcp {
         tcpq::stats(&mut st);
+    }
+    if let Some(mut p) = world.adv.take() {
+        p.shutdown();
     }
     st.add("lines", log.lines);
     st.write_json(&std::path::Path::new(&out).join("stats.json"));
